@@ -54,6 +54,7 @@ ENTITIES = [('&amp;', '&'), ('&lt;', '<'), ('&gt;', '>'), ('&copy;', '©'), ('&#
 REFERENCE_LOOKALIKES = ['&copy', '&amp', '&#35', '&notit;', '&copyfoo;', '&ampere;', '&nosuch;', '&#99999999;', '&#xFFFFFFF;', '&#;', '&#x;', '&Amp;', 'AT&T;']
 RAW_HTML = ['<span>', '</span>', '<br />', '<b class="x">', '</b>', '<!-- note -->', '<i data-x=\'1\'>', '<x-y z>']
 INFO = ['', '', 'python', 'sh', 'c++', 'js extra words', 'ruby startline=3']
+INFO_TILDE = ['~x', '~~ lang', '`tick`', 'a ``` b', '~', 'sh ~~~', '~~~']
 FENCE_LINES = ['code line', 'x = 1', '    indented', '# not a heading', '- not a list', '> not a quote', '*not emph*', '<div>', '', 'a  b', '[ref]: /nope',
                '``', '~', '| a | b |', '&amp; <&>', '\\*', '1. one', '---', '===']
 HTML6 = [['<div>', 'inner *not emph*', '</div>'], ['<table>', '<tr><td>', 'cell', '</td></tr>', '</table>'], ['<p class="c">text</p>'], ['</div>'],
@@ -580,6 +581,8 @@ class Gen:
         rng = self.rng
         ch = rng.choice('`~')
         info = rng.choice(INFO)
+        if ch == '~' and rng.random() < 0.15:
+            info = rng.choice(INFO_TILDE)     # 4.5: the info string of a tilde fence may contain tildes and backticks
         n = rng.randint(0, 4)
         lines = [rng.choice(FENCE_LINES) for _ in range(n)]
         length = rng.choice((3, 3, 3, 4, 6))
@@ -940,8 +943,9 @@ class Emitter:
             k = self.rng.randint(4 - len(ind), 3)
             nd.lines.insert(self.rng.randint(0, len(nd.lines)), ' ' * k + f + nd.ch * self.rng.choice((0, 0, 2)))
             self.stat('fence-looking-content-line')
-        out = [Line(ind + f + ((self.rng.choice((' ', ' ', '\t', ' \t ')) if self.rng.random() < 0.3 and nd.info and not self.opt.canonical else '')
-                               + nd.info), kind='fence')]
+        need_sep = nd.info.startswith(nd.ch)          # (otherwise the info string would lengthen the fence)
+        out = [Line(ind + f + ((self.rng.choice((' ', ' ', '\t', ' \t ')) if (self.rng.random() < 0.3 or need_sep) and nd.info and not self.opt.canonical else
+                                (' ' if need_sep else '')) + nd.info), kind='fence')]
         for l in nd.lines:
             out.append(Line((ind + l) if l else '', kind='fence-body'))
         if nd.closed:
